@@ -2,7 +2,8 @@
    consumers of a loaded module; everything else by sanitizer exploration). *)
 From Coq Require Import ZArith List Lia Bool.
 Import ListNotations.
-From LX Require Import Base.ListAux Generated.Consts Model.ModuleWf Model.Gate Proofs.GateProofs Model.Bounds Proofs.BoundsProofs Model.Envelope Proofs.EnvelopeProofs Generated.MixTables Model.Lfo Proofs.LfoProofs.
+From LX Require Import Base.ListAux Generated.Consts Model.ModuleWf Model.Gate Proofs.GateProofs Model.Bounds Proofs.BoundsProofs Model.Envelope Proofs.EnvelopeProofs Generated.MixTables Model.Lfo Proofs.LfoProofs
+  Model.ModLoad Proofs.ModLoadProofs Model.C669Load Proofs.C669LoadProofs Model.MtmLoad Proofs.MtmLoadProofs Model.S3MLoad Proofs.S3MLoadProofs.
 Local Open Scope Z_scope.
 
 (* Whatever a loader produced from whatever bytes: if the module passed the gate with the loaders' post-condition and has
@@ -131,3 +132,31 @@ Example c01_lfo_nonvacuous :
   lfo_get RMod false 1 (fold_left lfo_op [SetRate (-5); SetDepth 3; Update; Update] lfo_zero) = Some (-212 * 3, 1) /\
   lfo_get RMod false 1 {| l_type := 0; l_rate := 1; l_depth := 1; l_phase := 64 |} = None.
 Proof. vm_compute. repeat split; reflexivity. Qed.
+
+(* ---------------------------------------------------------------- from the bytes of a file to safe consumers ------------------- *)
+(* For the four loaders that are inside the model (Protracker M.K., Composer 669, MultiTracker, Scream Tracker 3: C03) nothing
+   about the loader is assumed any more: whatever bytes the file holds, if the loader accepts them and the gate lets the module
+   through, then - given the sequence table the scan establishes (C03's sequence theorem) - every table access of the modelled
+   consumers hits an existing entry and every envelope of every instrument evaluates inside its point array. *)
+Lemma noseq_and_seqs_give_public : forall m, wf_noseq m = true -> seqs_okb m = true -> public_wfb m = true.
+Proof. intros m W S. unfold wf_noseq in W. unfold public_wfb. rewrite W, S. reflexivity. Qed.
+
+Theorem protracker_file_is_safe_to_consume : forall ptk file r m,
+  Forall (fun b => 0 <= b <= 255) file -> mod_raw ptk file = Some r -> finish r = Some m -> seqs_okb m = true -> consumers_okb m = true.
+Proof. intros. apply wf_consumers, noseq_and_seqs_give_public; [eapply mod_loaded_module_is_wf; eauto|assumption]. Qed.
+Print Assumptions protracker_file_is_safe_to_consume.
+
+Theorem composer669_file_is_safe_to_consume : forall file r m,
+  Forall (fun b => 0 <= b <= 255) file -> c669_raw file = Some r -> finish r = Some m -> seqs_okb m = true -> consumers_okb m = true.
+Proof. intros. apply wf_consumers, noseq_and_seqs_give_public; [eapply c669_loaded_module_is_wf; eauto|assumption]. Qed.
+Print Assumptions composer669_file_is_safe_to_consume.
+
+Theorem multitracker_file_is_safe_to_consume : forall file r m,
+  Forall (fun b => 0 <= b <= 255) file -> mtm_raw file = Some r -> finish r = Some m -> seqs_okb m = true -> consumers_okb m = true.
+Proof. intros. apply wf_consumers, noseq_and_seqs_give_public; [eapply mtm_loaded_module_is_wf; eauto|assumption]. Qed.
+Print Assumptions multitracker_file_is_safe_to_consume.
+
+Theorem screamtracker3_file_is_safe_to_consume : forall file r m,
+  Forall (fun b => 0 <= b <= 255) file -> s3m_raw file = Some r -> finish r = Some m -> seqs_okb m = true -> consumers_okb m = true.
+Proof. intros. apply wf_consumers, noseq_and_seqs_give_public; [eapply s3m_loaded_module_is_wf; eauto|assumption]. Qed.
+Print Assumptions screamtracker3_file_is_safe_to_consume.
